@@ -4,15 +4,15 @@ CONSTANTS
   CapBoth = 1
   CapAgg = 1
   CapRes = 1
-  Kinds = {"simple", "drop", "distinct", "lookup1", "lookup2", "count", "limit", "both", "agg"}
+  Kinds = {"simple", "distinct", "lookup1", "lookup2", "count", "limit", "both", "agg"}
   MaxStages = 3
-  Ns = {0, 1, 2, 3, 4, 6, 9}
-  Fs = {1, 0, 2, 3}
-  Ks = {99, 0, 1, 3}
+  Ns = {0, 2, 5, 9}
+  Fs = {1, 2}
+  Ks = {99, 1}
   LimitL = 1
   AggA = 2
   BothDrain = "concurrent"
-  MaxWork = 40
+  MaxWork = 60
   Reduce = TRUE
   Survey = FALSE
 INIT Init
